@@ -991,6 +991,24 @@ def part_tx_wrapper(ctx):
     return p
 
 
+def part_dl_service_race(ctx):
+    """the dead-letter service's first run against a client acknowledging right after its first commit"""
+    p = Part("dead-letter-service-race")
+    d = os.path.join(ctx["work"], "dlrace")
+    rc, out = harness(["dl-service-race", "-out", d], timeout=300)
+    if rc != 0:
+        p.violation("harness-failed", "dl-service-race failed: " + out[-1500:], dict(log=out[-3000:]), found_input=False)
+        return p
+    r = json.load(open(os.path.join(d, "dlrace.json")))
+    p.evaluations = 1
+    p.traces = 1
+    p.nontrivial = 1 if r["forwarded_at_first_commit"] or r["acked_by_the_client_after_first_commit"] else 0
+    p.samples = [r]
+    for pr in r.get("problems") or []:
+        p.violation(pr.split(":")[0], pr, dict(kind="dl-service-race", result=r))
+    return p
+
+
 def part_adapter(ctx):
     """the StreamingPull request adapter (services.VerifAdaptIn, hook) against Adapter.adapt_in"""
     p = Part("streaming-pull-request-adapter")
@@ -1274,7 +1292,7 @@ CHECKS = {
     "C06": dict(
         props=["C06", "Tie"],
         parts=[engine_part("delivery", 48, 600, 45, claim_c06, ["pull_deadlettered", "nack_deadlettered", "job_effective:DeadLetterSweep"], monitors=("attempts-exceeded",)),
-               services_part(("DeadLetterSweep",), False), part_dead_letter_faults, part_fetch_untouched],
+               services_part(("DeadLetterSweep",), False), part_dead_letter_faults, part_fetch_untouched, part_dl_service_race],
         rule="[+ fetch part: a delivery fetched but not handed out (byte budget, limit) keeps its attempt count] [+ background services part: the dead-letter service's first run = one model sweep step] engine profile delivery with dead-letter policies N in 1..4 and default, topologies from generated topics (no subscriber, several, filtered, ordered, deleted topic, self loop); "
              "non-trivial = deliveries dead-lettered by pull / nack / sweep",
         assumptions=BUS_ASSUME),
